@@ -5,6 +5,7 @@
   parameters (ANY functions: the theorems hold for every acceleration scheme).
 -/
 import AmiscModel.Sys
+import AmiscProofs.AffineLoop
 
 namespace Amisc.C06
 
@@ -92,6 +93,41 @@ theorem more_iterations_stable (m m' : Nat) (hm : m ≤ m') : ∀ (fuel : Nat) (
             · omega
             · simp only [h3, if_false]
               exact more_iterations_stable m m' hm fuel _ _ _ (by simp only [hs]) hc
+
+
+/-! ### affine loops: the returned value against the exact linear solve -/
+
+/-- **Decoupled affine loops** (every coupling variable `c_i ↦ a c_i + b`, `a ≠ 1`): every component of a sample returned
+    without NaN lies within `|a| / |1 − a| · tol` of the exact solution `b / (1 − a)` — the tolerance amplified by the
+    loop's sensitivity — for EVERY acceleration scheme `mix`, iteration limit and starting iterate. -/
+theorem affine_loop_within_amplified_tolerance (a b : Q) (ha : a ≠ 1) (maxIter fuel : Nat) (s0 : FpiState)
+    (h0 : s0.conv = false) (y : List Q)
+    (h : fpiOutput (fpiRun (fun p => p.map fun c => a * c + b) mix tol maxIter fuel s0 [] []) = some y) :
+    ∀ (i : Nat) (hi : i < y.length), |y[i] - b / (1 - a)| ≤ |a| / |1 - a| * tol := by
+  obtain ⟨c, hy, hres⟩ := returned_is_fixed_point _ mix tol maxIter fuel s0 h0 y h
+  intro i hi
+  have hlen : y.length = c.length := by rw [hy]; simp
+  have hic : i < c.length := hlen ▸ hi
+  have hyi : y[i] = a * c[i] + b := by simp [hy]
+  have := AffineLoop.abs_sub_le_maxAbsDiff y c i hi hic
+  rw [hyi] at this ⊢
+  exact AffineLoop.scalar_bound a b c[i] tol ha (le_trans this hres)
+
+/-- **Coupled affine loops of any size** (`F c = A c + b`, exact solution `xs = A xs + b`, sensitivity `S (I − A) = I`):
+    the value `y = F c` returned for an iterate `c` satisfies `y − xs = S A (c − y)` exactly — the residual pushed through
+    the loop's sensitivity; in particular a zero residual returns the exact linear solve. (Matrix form; `fpiRun` returns
+    `F c` for an iterate with `‖F c − c‖∞ ≤ tol` by `returned_is_fixed_point`.) -/
+theorem affine_loop_error_is_amplified_residual {n : Type*} [Fintype n] [DecidableEq n]
+    (A S : Matrix n n Q) (hS : S * (1 - A) = 1) (b xs c : n → Q) (hxs : xs = A.mulVec xs + b) :
+    (A.mulVec c + b) - xs = (S * A).mulVec (c - (A.mulVec c + b)) ∧
+    (A.mulVec c + b = c → A.mulVec c + b = xs) :=
+  ⟨AffineLoop.error_eq_sensitivity_mul_residual A S hS b xs c hxs,
+   AffineLoop.zero_residual_is_solution A S hS b xs c hxs⟩
+
+/-! non-vacuity: c ↦ c/2 + 1, tol 1/10: the returned value is within (1/2)/(1/2)·(1/10) of 2 -/
+example : ∃ y, fpiOutput (fpiRun (fun p => p.map fun c => (1/2 : Q) * c + 1) (fun _ ch _ => ch.getLastD []) (1/10) 20 22
+    { prev := [0], y := [] } [] []) = some [y] ∧ |y - 2| ≤ 1/10 := by
+  refine ⟨31/16, by decide +kernel, by norm_num⟩
 
 /-! non-vacuity: the scalar loop c ↦ c/2 + 1 from 0 with tolerance 1/10 converges (to within tol of the fixed point 2) -/
 def Fh : List Q → List Q := fun p => p.map fun c => c / 2 + 1
